@@ -209,6 +209,54 @@ func ascendingIdx(idx []int32) bool {
 	return true
 }
 
+// Two DIFFERENT struct types that print the same name (declared in different
+// function scopes; the same happens with equally named types of two packages).
+func sameNameElts1(n int) interface{} {
+	type rec struct {
+		A uint16
+		B int32
+	}
+	out := make([]rec, n)
+	for i := range out {
+		out[i] = rec{A: uint16(i + 1), B: int32(-i - 1)}
+	}
+	return out
+}
+func sameNameElts2(n int) interface{} {
+	type rec struct {
+		X uint64
+		Y [3]uint8
+	}
+	out := make([]rec, n)
+	for i := range out {
+		out[i] = rec{X: uint64(i)<<40 | 7, Y: [3]uint8{1, 2, uint8(i)}}
+	}
+	return out
+}
+
+func checkSameNamedTypes() error {
+	return guard("generic arrays of two equally named element types", func() error {
+		idx := []int32{0, 5, 64, 200}
+		for round, elts := range []interface{}{sameNameElts1(4), sameNameElts2(4), sameNameElts1(4)} {
+			a, err := array.New(idx, elts)
+			if err != nil {
+				return viol("valid-rejected", "array.New rejected valid input (element type %T): %v", elts, err)
+			}
+			rv := reflect.ValueOf(elts)
+			for i, ix := range idx {
+				v, ok := a.Get(ix)
+				if !ok || !reflect.DeepEqual(v, rv.Index(i).Interface()) {
+					return viol("array-get", "round %d, element type %T: Get(%d) = (%v,%v), want %v", round, elts, ix, v, ok, rv.Index(i).Interface())
+				}
+			}
+			if _, ok := a.Get(3); ok {
+				return viol("array-get", "Get(3) found an element that was never stored")
+			}
+		}
+		return nil
+	})
+}
+
 // checkC16 wraps the array check with a two-object history: an array built
 // earlier and kept alive must read the same after the case built, loaded and
 // failed to build other arrays.
@@ -231,6 +279,11 @@ func checkC16(c *Case, s *Stats) error {
 	before := fmt.Sprintf("%v", snapshotArray(earlier, 9000))
 	if err := checkC16inner(c, s); err != nil {
 		return err
+	}
+	if c.Kind == "Struct" {
+		if err := checkSameNamedTypes(); err != nil {
+			return err
+		}
 	}
 	var after string
 	if err := guard("reading an array built earlier", func() error {
